@@ -2,6 +2,7 @@
 panic precondition, effect.  Each entry cites the documented behaviour it encodes.
 A model returns the result SV (or NORESULT when it wrote the destination itself, or None to fall
 back to the default "unknown call" treatment)."""
+import re
 from .absint import *
 from .interp import NORESULT, stable
 from .loader import Place, op_place
@@ -159,7 +160,48 @@ def m_remove(it, S, t, callee, args):
               "index %s ; len %s" % (it.describe(S, ix), it.describe(S, ln)), callee="alloc::vec::Vec::remove")
     S.add_le(ix, ln, -1)
     set_len(it, S, loc, minus(ln, U(1)))
+    if const_val(ix) == 0:
+        v = take_front(it, S, loc, tykey(Place(t["dest"]).ty))
+        if v is not None:
+            return v
+    else:
+        front_unknown(S, loc)
     return None_result(it, t, callee)
+
+
+def front_of(S, loc):
+    """number of elements already taken from the front of the sequence at loc (relative to its origin), or None if unknown"""
+    v = S.read((loc[0], loc[1] + (("front",),)))
+    c = const_val(v)
+    if c is not None:
+        return c if c >= 0 else None
+    if isinstance(v, tuple) and v[0] == "ld" and v[2] != "entry":
+        return None        # the container was changed by something that is not tracked
+    return 0
+
+
+def origin_of(S, loc):
+    """the location whose original elements the sequence at loc still yields (an iterator made from a vector names the vector)"""
+    v = S.read((loc[0], loc[1] + (("origin",),)))
+    if isinstance(v, tuple) and v[0] == "ref":
+        return v[1]
+    return loc
+
+
+def take_front(it, S, loc, ety):
+    """the next element from the front: named by its position in the origin sequence"""
+    k = front_of(S, loc)
+    if k is None:
+        return None
+    org = origin_of(S, loc)
+    S.write((loc[0], loc[1] + (("front",),)), U(k + 1))
+    v = ("elem", it.site("front"), k, org)
+    set_ty(v, ety)
+    return v
+
+
+def front_unknown(S, loc):
+    S.write((loc[0], loc[1] + (("front",),)), K("isize", -1))
 
 
 def None_result(it, t, callee):
@@ -318,6 +360,55 @@ def index_common(it, S, t, callee, args, owned=False):
        "core::array::<impl core::ops::index::Index<I> for [T; N]>::index", "core::array::<impl core::ops::index::IndexMut<I> for [T; N]>::index_mut")
 def m_index(it, S, t, callee, args):
     return index_common(it, S, t, callee, args)
+
+
+@model("core::slice::<impl [T]>::first", "core::slice::<impl [T]>::first_mut", "core::slice::<impl [T]>::get", "core::slice::<impl [T]>::get_mut",
+       "alloc::vec::Vec::first", "alloc::vec::Vec::get")
+def m_slice_get(it, S, t, callee, args):
+    # first() / get(i) / get(range): Some(reference into the slice) iff the index / range is in bounds, else None - never panics (std docs)
+    cont_ty = it.op_type(t["args"][0])
+    ln = it.len_of_ref(S, args[0], cont_ty)
+    loc = it.target(args[0])
+    name = norm_name(callee.get("pretty"))
+    R = ("call", it.site(), callee.get("path"))
+    set_ty(R, tykey(Place(t["dest"]).ty))
+    d = ("discr", R)
+    if name.endswith("::first") or name.endswith("::first_mut"):
+        ix = U(0)
+        rng = None
+    else:
+        ix = args[1]
+        rng = range_bounds(it, S, ix, ln)
+        ity = it.op_type(t["args"][1])
+        if rng is None and ity.get("k") != "uint":
+            it.havoc_args(S, t, args)
+            return R
+    if rng is not None:
+        # Some iff start <= end <= len
+        view = (("V", it.site()), ())
+        S.write((view[0], (("len",),)), minus(rng[1], rng[0]))
+        S.mem[(view[0], (("of",),))] = ("ref", loc)
+        S.mem[(view[0], (("start",),))] = rng[0]
+        payload = ("ref", view)
+        inb = S.prove_le(rng[1], ln, 0) and S.prove_le(rng[0], rng[1], 0)
+        it.cond[(d, 1)] = [("le", rng[1], ln, 0), ("le", rng[0], rng[1], 0)]
+        if const_val(rng[0]) == 0:
+            it.cond[(d, 0)] = [("le", ln, rng[1], -1)]
+        out = S.prove_le(ln, rng[1], -1)
+    else:
+        if sv_type(ix) is None and not is_const(ix):
+            set_ty(ix, "usize")
+        ci = const_val(ix)
+        payload = ("ref", (loc[0], loc[1] + ((("ix", ci) if ci is not None else ("ix",)),)))
+        inb = S.prove_le(ix, ln, -1)
+        out = S.prove_le(ln, ix, 0)
+        it.cond[(d, 1)] = [("le", ix, ln, -1)]
+        it.cond[(d, 0)] = [("le", ln, ix, 0)]
+    if inb:
+        S.set_dom(d, Dom(1, 1))
+    elif out:
+        S.set_dom(d, Dom(0, 0))
+    return ("upd", R, (((("dc", 1, "Some"), ("f", 0, "0")), payload),))
 
 
 @model("bytes::bytes::Bytes::slice")
@@ -556,6 +647,14 @@ def _saturating(op):
             S.add_le(args[1], R, 0)
         else:
             S.add_le(R, args[0], 0)
+            # unsigned a.saturating_sub(b) is 0 exactly when a <= b: tests of the result against zero carry that fact
+            a, b = args[0], args[1]
+            zero, one = K(ty, 0), K(ty, 1)
+            le, gt = [("le", a, b, 0)], [("le", b, a, -1)]
+            for node, when_true in ((("cmp", "Eq", R, zero), le), (("cmp", "Ne", R, zero), gt), (("cmp", "Gt", R, zero), gt),
+                                    (("cmp", "Le", R, zero), le), (("cmp", "Lt", R, one), le), (("cmp", "Ge", R, one), gt)):
+                it.cond[(node, 1)] = when_true
+                it.cond[(node, 0)] = gt if when_true is le else le
         return R
     return f
 
@@ -650,6 +749,25 @@ def _from_residual(it, S, t, callee, args):
 
 
 PREFIX_MODELS.append((lambda name, c: name.endswith("::from_residual"), _from_residual))
+
+
+_NUM_FROM = re.compile(r"^core::convert::num::<impl core::convert::From<(u8|u16|u32|u64|i8|i16|i32|i64|bool|usize|isize)> for (u8|u16|u32|u64|u128|i8|i16|i32|i64|i128|usize|isize|f32|f64)>::from$")
+
+
+def _num_from(it, S, t, callee, args):
+    # lossless numeric conversions: the same value in the wider type (std: From for primitive numbers is `as` of a lossless cast)
+    m = _NUM_FROM.match(norm_name(callee.get("pretty")))
+    to = m.group(2)
+    a = args[0]
+    if to in ("f32", "f64"):
+        return set_ty(("fcast", to, a), to)
+    ca = const_val(a)
+    if ca is not None:
+        return K(to, ca)
+    return set_ty(("cast", to, a), to)
+
+
+PREFIX_MODELS.append((lambda name, c: _NUM_FROM.match(name) is not None, _num_from))
 
 
 @model("core::option::Option::is_some", "core::option::Option::is_none", "core::result::Result::is_ok", "core::result::Result::is_err")
@@ -759,6 +877,41 @@ def m_eq_generic(it, S, t, callee, args):
         if r is not None:
             return K("bool", 1 if r else 0)
         return ("cmp", opn, a, b)
+    if k == "adt" and inner.get("adt") == "core::option::Option":
+        # Option<T> equality for a scalar T: both None, or both Some with equal payloads (derived PartialEq)
+        g = (inner.get("s") or "")
+        m = re.match(r"^(?:std|core)::option::Option<(u8|u16|u32|u64|usize|i8|i16|i32|i64|isize|bool|char)>$", g)
+        if m:
+            da, db = it.discr_of(S, a, inner), it.discr_of(S, b, inner)
+            pa, pb = project(a, (("dc", 1, "Some"), ("f", 0, "0"))), project(b, (("dc", 1, "Some"), ("f", 0, "0")))
+            for x in (pa, pb):
+                if sv_type(x) is None and not is_const(x):
+                    set_ty(x, m.group(1))
+            ca, cb = const_val(da), const_val(db)
+            if ca is None and S.dom(da).lo == S.dom(da).hi:
+                ca = S.dom(da).lo
+            if cb is None and S.dom(db).lo == S.dom(db).hi:
+                cb = S.dom(db).lo
+            if ca is not None and cb is not None:
+                if ca != cb:
+                    return K("bool", 1 if neg else 0)
+                if ca == 0:
+                    return K("bool", 0 if neg else 1)
+                r = S.eval_cmp(opn, pa, pb)
+                if r is not None:
+                    return K("bool", 1 if r else 0)
+                return ("cmp", opn, pa, pb)
+            R = ("call", it.site(), "option-eq")
+            set_ty(R, "bool")
+            known, other, d_other = (cb, a, da) if cb is not None else (ca, b, db)
+            eq_val = 0 if neg else 1
+            if known == 1:
+                it.cond[(R, eq_val)] = [("dom", d_other, Dom(1, 1)), ("le", pa, pb, 0), ("le", pb, pa, 0)]
+            elif known == 0:
+                it.cond[(R, eq_val)] = [("dom", d_other, Dom(0, 0))]
+                it.cond[(R, 1 - eq_val)] = [("dom", d_other, Dom(1, 1))]
+            S.set_dom(R, Dom(0, 1))
+            return R
     if k == "str" or (k == "adt" and inner.get("adt") == "alloc::string::String"):
         sa = args[0] if not (isinstance(args[0], tuple) and args[0][0] == "ref" and it.op_type(t["args"][0])["to"].get("k") == "ref") else it.deref_value(S, args[0], 1)
         sb = args[1] if not (isinstance(args[1], tuple) and args[1][0] == "ref" and it.op_type(t["args"][1])["to"].get("k") == "ref") else it.deref_value(S, args[1], 1)
@@ -770,7 +923,8 @@ def m_eq_generic(it, S, t, callee, args):
 for _n in ("core::cmp::PartialEq::ne", "core::cmp::PartialEq::eq", "core::cmp::impls::<impl core::cmp::PartialEq<&B> for &A>::eq",
            "core::cmp::impls::<impl core::cmp::PartialEq<&B> for &A>::ne", "core::str::traits::<impl core::cmp::PartialEq for str>::eq",
            "core::str::traits::<impl core::cmp::PartialEq for str>::ne", "<alloc::string::String as core::cmp::PartialEq<str>>::eq",
-           "<alloc::string::String as core::cmp::PartialEq<&str>>::eq", "<alloc::string::String as core::cmp::PartialEq>::eq"):
+           "<alloc::string::String as core::cmp::PartialEq<&str>>::eq", "<alloc::string::String as core::cmp::PartialEq>::eq",
+           "<core::option::Option<T> as core::cmp::PartialEq>::eq", "<core::option::Option<T> as core::cmp::PartialEq>::ne"):
     MODELS[_n] = m_eq_generic
 
 
@@ -816,11 +970,26 @@ def m_range_next(it, S, t, callee, args):
 
 @model("<alloc::vec::Vec<T, A> as core::iter::traits::collect::IntoIterator>::into_iter")
 def m_vec_into_iter(it, S, t, callee, args):
-    # the iterator yields exactly len(v) items
+    # the iterator yields exactly len(v) items: the vector's elements from front to back
     ln = it.len_of_value(S, args[0], it.op_type(t["args"][0]))
     R = ("call", it.site(), callee.get("path"))
     set_ty(R, tykey(Place(t["dest"]).ty))
-    return it.with_len(R, ln)
+    subs = [((("len",),), ln)]
+    pl = op_place(t["args"][0])
+    if pl is not None:
+        loc = it.resolve(S, pl)
+        k = front_of(S, loc)
+        org = origin_of(S, loc)
+        if org == loc:
+            # a vector that was moved here from somewhere else is named by where it came from (the parameter, the field)
+            base = args[0]
+            while isinstance(base, tuple) and base[0] == "upd":
+                base = base[1]
+            if isinstance(base, tuple) and base[0] == "ld":
+                org = base[1]
+        subs.append(((("origin",),), ("ref", org)))
+        subs.append(((("front",),), U(k) if k is not None else K("isize", -1)))
+    return ("upd", R, tuple(subs))
 
 
 @model("core::slice::<impl [T]>::chunks")
@@ -885,6 +1054,11 @@ def m_counted_next(it, S, t, callee, args):
     S.write((loc[0], loc[1] + (("len",),)), new)
     S.add_le(new, ln, 0)
     it.havoc_args(S, t, args, skip=(0,))
+    if "IntoIter" in norm_name(callee.get("pretty")) and isinstance(S.read((loc[0], loc[1] + (("origin",),))), tuple) and S.read((loc[0], loc[1] + (("origin",),)))[0] == "ref":
+        m = re.match(r"^(?:core|std)::option::Option<(.*)>$", Place(t["dest"]).ty.get("s", ""))
+        v = take_front(it, S, loc, m.group(1) if m else None)
+        if v is not None:
+            return ("upd", R, (((("dc", 1, "Some"), ("f", 0, "0")), v),))
     return R
 
 
